@@ -953,7 +953,11 @@ def default_for(ex, ty):
     if s == 'Option': return none()
     if s in COLLECTORS: return COLLECTORS[s](ex, [], t)
     infos = ex.prog.method_info('Default', s, 'default')
-    if len(infos) == 1 and not infos[0][4]: return ex.call_mir(infos[0][0], [])
+    if len(infos) > 1:
+        from .engine import _qual_match
+        q = [i for i in infos if _qual_match(t, i[1])]
+        if len(q) == 1: infos = q
+    if len(infos) == 1: return ex.call_mir(infos[0][0], [])
     fields = ex.prog.defs.struct_fields(s)
     raise Unsupported('Default for ' + ty)
 
@@ -1195,3 +1199,26 @@ def box_eq(ex, args, m):
     a = deref(args[0]); b = deref(args[1])
     r = val_eq_dispatch(ex, a.f[0] if isinstance(a, BoxV) else a, b.f[0] if isinstance(b, BoxV) else b)
     return r if m.group(1) == 'eq' else simp(b_not(r))
+
+
+@model(r'<(?:std::string::)?String as (?:std::ops::)?Index<(?:std::ops::)?RangeFull>>::index|<str as (?:std::ops::)?Index<(?:std::ops::)?RangeFull>>::index')
+def string_index_full(ex, args): return as_str(args[0])
+
+
+@model(r'(?:core::str::|std::str::|alloc::str::)?<impl str>::(to_uppercase|to_lowercase|to_ascii_uppercase|to_ascii_lowercase)|(?:std::string::)?String::(to_uppercase|to_lowercase)')
+def str_case(ex, args, m):
+    """ASCII only (non-ASCII input is outside every claim that uses this model): obligation, not assumption"""
+    s = as_str(args[0]); up = 'upper' in m.group(0)
+    out = []
+    for c in s.chars:
+        if isinstance(c, int):
+            if c >= 128: raise Unsupported('case conversion of non-ASCII char')
+            out.append(ord(chr(c).upper() if up else chr(c).lower()))
+        else:
+            ex.oblige(c < 128, 'model-domain', 'case conversion model covers ASCII only')
+            out.append(z3.If(z3.And(c >= 97, c <= 122), c - 32, c) if up else z3.If(z3.And(c >= 65, c <= 90), c + 32, c))
+    return StrV(out)
+
+
+@model(r'<(?:std::ops::)?Range<.*> as Clone>::clone|<(?:std::option::)?Option<.*> as Clone>::clone|<\(.*\) as Clone>::clone|<(?:std::result::)?Result<.*> as Clone>::clone')
+def lib_clone(ex, args): return clone_val(deref(args[0]))
